@@ -1,7 +1,7 @@
 """C15 — static and adaptive samplers follow their documented state machines.
 
 Correspondence (exact): seeded call histories (sample calls with device arguments, make_static / re-staticising
-with arbitrary intervals; adaptive calls with loss vectors of dyadic rationals incl. ties, constant vectors,
+with arbitrary intervals, read-only questions about the sampler in between; adaptive calls with loss vectors of dyadic rationals incl. ties, constant vectors,
 missing loss, wrong length) are executed on the real samplers and on the Lean model (drivers/C15.lean);
 the sequence of returned point sets is canonicalised to ids (static) resp. row origins (adaptive) and compared.
 Property oracles (independent of the model) judge every case directly on the implementation's outputs."""
@@ -39,8 +39,13 @@ def _recording_domain(cls):
         tp = common.use_repo()
         if params is None:
             params = tp.spaces.Points.empty()
-        p = cls.sample_random_uniform(self, n=n, d=d, params=params, device=device)
-        self.rec_draws.append(p.as_tensor.detach().clone())
+        self.rec_depth = getattr(self, "rec_depth", 0) + 1
+        try:
+            p = cls.sample_random_uniform(self, n=n, d=d, params=params, device=device)
+        finally:
+            self.rec_depth -= 1
+        if self.rec_depth == 0:     # the density branch of a product domain calls itself again: record the outer call only
+            self.rec_draws.append(p.as_tensor.detach().clone())
         return p
 
     return type("Rec" + cls.__name__, (cls,), dict(sample_random_uniform=sample_random_uniform))
@@ -131,6 +136,9 @@ def run_static(case):
     toks, problems = [], []
     ncall = 0
     for j, op in enumerate(case["ops"]):
+        if op[0] == "q":
+            _query(tp, torch, cur, op[1])
+            continue
         if op[0] == "m":
             was_static = cur.is_static
             cur = cur.make_static(_ival(op[1]))
@@ -199,10 +207,46 @@ def run_static(case):
                                     f"a fresh set must be drawn"))
             spec_checks.append((j, ncall, f0, k, list(since), ident))
             since.append(ident)
-        if fresh and not (drawn and under.rec_draws[-1].shape == t.shape and torch.equal(under.rec_draws[-1], t)):
-            problems.append((j, f"sample call {ncall} returned a new point set that is not the set drawn from the underlying sampler"))
+        if fresh and not any(dr.shape == t.shape and torch.equal(dr, t) for dr in reversed(under.rec_draws)):
+            problems.append((j, f"sample call {ncall} returned a new point set that is not a set drawn from the underlying sampler"))
         prev = t
     return dict(text=" ".join(toks), problems=problems, spec_checks=spec_checks)
+
+
+QUERIES = ["len", "bool", "repr", "is_static/is_adaptive", "iter", "len(product)", "len(concat)", "len(append)",
+           "PeriodicCondition(non_periodic_sampler=s)", "AdaptiveWeightsCondition(sampler=s)"]
+
+
+def _query(tp, torch, s, kind):
+    """a read-only question about the sampler (what user code and the library itself ask between draws);
+    whatever it answers or raises, it is not a use of the point set"""
+    try:
+        if kind == 0:
+            len(s)
+        elif kind == 1:
+            bool(s)
+        elif kind == 2:
+            repr(s), str(s)
+        elif kind == 3:
+            s.is_static, s.is_adaptive
+        elif kind == 4:
+            iter(s)
+        elif kind in (5, 6, 7):
+            X = tp.spaces.R2("y")
+            other = tp.samplers.RandomUniformSampler(tp.domains.Parallelogram(X, [0, 0], [1, 0], [0, 1]), n_points=2)
+            comp = (s * other) if kind == 5 else (s + other) if kind == 6 else s.append(other)
+            len(comp)
+            len((other * s) if kind == 5 else (other + s) if kind == 6 else other.append(s))
+        elif kind in (8, 9):
+            X, T, U = tp.spaces.R2("x"), tp.spaces.R1("t"), tp.spaces.R1("u")
+            model = tp.models.FCN(X * T, U, hidden=(2,))
+            if kind == 8:
+                tp.conditions.PeriodicCondition(model, tp.domains.Interval(T, 0, 1), lambda u_left, u_right: u_left - u_right,
+                                                non_periodic_sampler=s)
+            else:
+                tp.conditions.AdaptiveWeightsCondition(model, s, lambda u: u)
+    except Exception:  # noqa: e.g. len() of a density sampler is unknown, adaptive weights need a static sampler
+        pass
 
 
 def static_line(case):
@@ -234,6 +278,20 @@ def _make_domain(case, tp, torch):
         X = tp.spaces.R3("x")
         dom = _recording_domain(tp.domains.Sphere)(X, [0.0, 1.0, -1.0], 2.0)
         inside = lambda p: math.sqrt(p[0] ** 2 + (p[1] - 1.0) ** 2 + (p[2] + 1.0) ** 2) <= 2.0 + 1e-5
+    elif kind in ("prodbox", "depdisc"):
+        T = tp.spaces.R1("t")
+        from torchphysics.problem.domains.domainoperations.product import ProductDomain
+        P = _recording_domain(ProductDomain)
+        if kind == "prodbox":     # fixed rectangle x time interval
+            dom = P(tp.domains.Parallelogram(X, [0, 0], [2, 0], [0, 1]), tp.domains.Interval(T, 0, 1.5))
+            inside = lambda p: (-1e-5 <= p[0] <= 2 + 1e-5) and (-1e-5 <= p[1] <= 1 + 1e-5) and (-1e-5 <= p[2] <= 1.5 + 1e-5)
+            vol = 3.0
+        else:                     # disc whose radius grows in time: the first factor depends on the second one
+            dom = P(tp.domains.Circle(X, [0, 0], lambda t: t + 1), tp.domains.Interval(T, 0, 1))
+            inside = lambda p: (-1e-5 <= p[2] <= 1 + 1e-5) and math.hypot(p[0], p[1]) <= p[2] + 1 + 1e-5
+            vol = 7 * math.pi / 3
+        if case.get("setvol"):
+            dom.set_volume(vol)
     else:
         raise ValueError(kind)
     dom.rec_draws = []
@@ -263,7 +321,16 @@ def run_adaptive(case):
     all_rows = set()
     undecided = unobserved = accepted_malformed = False
     orig_rand_like, orig_rand = torch.rand_like, torch.rand
+    tj = -1                                      # number of the sample_points call (queries in between do not count)
     for j, call in enumerate(case["calls"]):
+        if call is not None and "q" in call:
+            _query(tp, torch, s, call["q"])      # len(), repr(), ... of the adaptive sampler: not a call
+            continue
+        tj += 1
+        if call is not None and "loss" not in call:
+            # the number of points of a density sampler is only known after its first draw: expand the loss vector now
+            import random
+            call = dict(call, loss=_gen_loss(random.Random(f"loss:{call['loss_seed']}"), n0 or 1))
         loss = None if call is None else [Fraction(m, DEN) for m in call["loss"]]
         us = []           # random draws of the shape of the loss vector made during the call (the per-row thresholds)
 
@@ -293,7 +360,7 @@ def run_adaptive(case):
         except Exception as e:  # noqa: only a loss vector of the wrong length may be rejected
             texts.append("err:shape")
             if loss is None or len(loss) == (n0 or len(loss)):
-                problems.append((j, f"adaptive call {j + 1} raised {type(e).__name__}: {e}"))
+                problems.append((j, f"adaptive call {tj + 1} raised {type(e).__name__}: {e}"))
             model_calls.append(_model_call(rnd, loss, [Fraction(0)] * len(loss or [])))
             continue
         t = out.as_tensor.detach().clone()
@@ -315,10 +382,9 @@ def run_adaptive(case):
         model_calls.append(_model_call(rnd, loss, uvals))
         # ---- property oracles
         if t.shape[0] != n0:
-            problems.append((j, f"adaptive call {j + 1} returned {t.shape[0]} points, the first call {n0}: the number of points must stay constant"))
+            problems.append((j, f"adaptive call {tj + 1} returned {t.shape[0]} points, the first call {n0}: the number of points must stay constant"))
             texts.append("?")
-            prev, prev_org = t, None
-            continue
+            break           # the history has failed here; later calls cannot be judged against a set of another size
         rows = [tuple(r) for r in t.tolist()]
         same = [prev is not None and rows[i] == tuple(prev[i].tolist()) for i in range(n0)]
         draw = dom.rec_draws[-1] if (direct and len(dom.rec_draws) == before + 1 and dom.rec_draws[-1].shape == t.shape) else None
@@ -345,26 +411,26 @@ def run_adaptive(case):
         org = []
         for i in range(n0):
             if expect[i] == "keep" and not same[i]:
-                problems.append((j, f"adaptive call {j + 1}: row {i} has previous loss {loss[i]} >= threshold and must be kept, but it was replaced"))
+                problems.append((j, f"adaptive call {tj + 1}: row {i} has previous loss {loss[i]} >= threshold and must be kept, but it was replaced"))
             if expect[i] == "replace" and same[i]:
                 why = "no loss was passed" if (prev is None or loss is None) else f"previous loss {loss[i]} is below the threshold"
-                problems.append((j, f"adaptive call {j + 1}: row {i} must be replaced by a fresh point ({why}) but it was kept"))
+                problems.append((j, f"adaptive call {tj + 1}: row {i} must be replaced by a fresh point ({why}) but it was kept"))
             if not same[i] and expect[i] != "keep":
                 if rows[i] in all_rows:
-                    problems.append((j, f"adaptive call {j + 1}: replacement for row {i} is not a fresh point (it was returned before)"))
+                    problems.append((j, f"adaptive call {tj + 1}: replacement for row {i} is not a fresh point (it was returned before)"))
                 if not inside(rows[i]):
-                    problems.append((j, f"adaptive call {j + 1}: replacement for row {i} = {rows[i]} lies outside the domain"))
+                    problems.append((j, f"adaptive call {tj + 1}: replacement for row {i} = {rows[i]} lies outside the domain"))
                 if filt is not None and not rows[i][0] > 1.0:
-                    problems.append((j, f"adaptive call {j + 1}: replacement for row {i} = {rows[i]} violates the sampler's filter"))
+                    problems.append((j, f"adaptive call {tj + 1}: replacement for row {i} = {rows[i]} violates the sampler's filter"))
             if same[i] and prev_org:
                 org.append(prev_org[i])
             elif draw is not None:
                 # which row of the fresh uniform sample is it?  (the model says: the row with the same index; any fresh point
                 # inside the domain satisfies the property, so a different index is a correspondence matter only)
                 src = [r for r in range(n0) if tuple(draw[r].tolist()) == rows[i]]
-                org.append((j, i if i in src else (src[0] if src else "?")))
+                org.append((tj, i if i in src else (src[0] if src else "?")))
             else:
-                org.append((j, i))
+                org.append((tj, i))
         all_rows.update(rows)
         texts.append(" ".join(f"{a}.{b}" for a, b in org))
         prev, prev_org = t, org
@@ -405,10 +471,16 @@ def gen_static(rng, big=False):
     start = ["plain"] if rng.random() < 0.3 else ["static", _gen_interval(rng)]
     length = rng.randint(1, 60 if not big else 400)
     p_m = rng.choice([0.0, 0.0, 0.05, 0.15])
+    p_q = rng.choice([0.0, 0.1, 0.1, 0.3])
     ops = []
+    if p_q and rng.random() < 0.6:
+        ops.append(["q", rng.randrange(len(QUERIES))])     # a question before the first draw
     for _ in range(length):
-        if rng.random() < p_m:
+        x = rng.random()
+        if x < p_m:
             ops.append(["m", _gen_interval(rng)])
+        elif x < p_m + p_q:
+            ops.append(["q", rng.randrange(len(QUERIES))])
         else:
             ops.append(["s", rng.choice([0, 0, 1])])
     if not any(o[0] == "s" for o in ops):
@@ -447,12 +519,23 @@ def gen_adaptive(rng, rnd):
         case["density"] = rng.choice([1.0, 2.5])
         case["dom"] = "rect"          # volume 3 -> 3 resp. 8 points
         n = case["n"] = {1.0: 3, 2.5: 8}[case["density"]]
+    lazy = False
+    if r >= 0.22 and r < 0.5:
+        case["dom"] = rng.choice(["prodbox", "depdisc", "depdisc"])
+        if rng.random() < 0.6:
+            case["density"] = rng.choice([1.5, 2.0, 3.0])       # 4..22 points, count known after the first draw
+            lazy = True
+        if rng.random() < 0.4:
+            case["setvol"] = True
     calls = []
-    bad = rng.random() < 0.06
+    bad = rng.random() < 0.06 and not lazy
     for j in range(ncalls):
         x = rng.random()
         if j == 0 and x < 0.7 or x < 0.08:
             calls.append(None)
+            continue
+        if lazy:
+            calls.append(dict(loss_seed=rng.randint(0, 10 ** 9)))
             continue
         m = n
         if bad and j > 0 and (rng.random() < 0.3 or j == ncalls - 1):
@@ -475,6 +558,13 @@ def gen_adaptive(rng, rnd):
         calls.append(call)
         if m != n:
             break           # a malformed call ends the history
+    if rng.random() < 0.3:      # read-only questions between the calls
+        mixed = []
+        for c in calls:
+            while rng.random() < 0.3:
+                mixed.append(dict(q=rng.choice([0, 1, 2, 3, 4, 5, 6, 7])))
+            mixed.append(c)
+        calls = mixed
     case["calls"] = calls
     return case
 
@@ -491,6 +581,13 @@ FIXED = [
     dict(kind="static", under="stamp", n=2, start=["static", 5],
          ops=[["s", 0]] * 3 + [["m", 2]] + [["s", 0]] * 4 + [["m", 4]] + [["s", 1]] * 7 + [["m", "inf"]] + [["s", 0]] * 5),
     dict(kind="static", under="stamp", n=2, start=["static", "inf"], ops=[["s", 0]] * 4 + [["m", 1]] + [["s", 0]] * 3),
+    dict(kind="static", under="uniform", n=3, start=["static", 2], ops=[["q", 0]] + [["s", 0]] * 5),
+    dict(kind="static", under="stamp", n=2, start=["static", 3], ops=[["q", 5]] + [["s", 0]] * 7),
+    dict(kind="static", under="stamp", n=2, start=["static", 3], ops=[["s", 0], ["q", 0], ["s", 0], ["q", 9], ["s", 0], ["s", 0], ["q", 8], ["s", 0]]),
+    dict(kind="static", under="stamp", n=2, start=["plain"], ops=[["q", 0], ["s", 0], ["m", 2], ["q", 6], ["s", 0], ["s", 0], ["s", 0]]),
+    dict(kind="adapt", dom="depdisc", n=5, density=3.0, ratio="1/2", calls=[None, dict(loss_seed=1), dict(loss_seed=2), None, dict(loss_seed=3)]),
+    dict(kind="adapt", dom="depdisc", n=5, density=2.0, setvol=True, ratio="1/4", calls=[None, dict(loss_seed=4), dict(loss_seed=5)]),
+    dict(kind="adaptr", dom="prodbox", n=5, density=4.0, calls=[None, dict(loss_seed=6), dict(loss_seed=7)]),
     dict(kind="adapt", dom="rect", n=5, ratio="1/2", calls=[None, dict(loss=[0, 64, 32, 16, 48]), dict(loss=[64] * 5), None,
                                                             dict(loss=[10, 10, 20, 20, 15])]),
     dict(kind="adapt", dom="circle", n=4, ratio="1", calls=[None, dict(loss=[0, 64, 32, 64])]),
@@ -549,11 +646,22 @@ def judge(rep, case, res, model_reply):
         nm = sum(1 for o in case["ops"] if o[0] == "m")
         rep.count("restatic:" + ("0" if nm == 0 else "1-2" if nm <= 2 else "3+"))
         rep.count("calls:" + _lenbucket(len(case["ops"])))
+        nq = sum(1 for o in case["ops"] if o[0] == "q")
+        rep.count("queries:" + ("0" if nq == 0 else "1-3" if nq <= 3 else "4+"))
+        first_s = next((i for i, o in enumerate(case["ops"]) if o[0] == "s"), 0)
+        if any(o[0] == "q" for o in case["ops"][:first_s]):
+            rep.count("queries:before-first-draw")
+        for o in case["ops"]:
+            if o[0] == "q":
+                rep.count("query:" + QUERIES[o[1]])
         model = canon_model_static(case, model_reply) if model_reply is not None else None
         what = "static/non-static history: drivers/C15.lean `static` (TPV.SamplerState.run) vs ids of the sets returned by the real sampler"
     else:
-        rep.count(kind + ":" + case["dom"] + (":filter" if case.get("filter") else ":density" if case.get("density") else ""))
+        rep.count(kind + ":" + case["dom"] + (":filter" if case.get("filter") else ":density" if case.get("density") else ":n_points")
+                  + (":set_volume" if case.get("setvol") else ""))
         rep.count("adaptive-calls:" + _lenbucket(len(case["calls"])))
+        if any(c is not None and "q" in c for c in case["calls"]):
+            rep.count("adaptive:with-queries")
         if "err:shape" in res["text"]:
             rep.count("adaptive:wrong-length-loss")
         if res.get("undecided"):
@@ -588,12 +696,15 @@ def _lenbucket(n):
 def _nontrivial(case):
     if case["kind"] == "static":
         return sum(1 for o in case["ops"] if o[0] == "s") >= 3 and case["n"] > 0
-    return sum(1 for c in case["calls"] if c is not None) >= 1 and len(case["calls"]) >= 2 and case["n"] >= 2
+    real = [c for c in case["calls"] if c is None or "q" not in c]
+    return sum(1 for c in real if c is not None) >= 1 and len(real) >= 2 and case["n"] >= 2
 
 
 def run(ctx, rep, cases=None, oracle_only=False):
     rep.rule = ("seeded call histories; static: >= 3 sample calls on a non-empty sampler (intervals inf/0/1..12, plain or static start, "
-                "re-staticising, device arguments, stamped user sampler and real random samplers); adaptive: >= 2 calls, >= 1 loss vector, "
+                "re-staticising, device arguments, read-only questions such as len()/repr()/containing samplers' len() between and before "
+                "the draws, stamped user sampler and real random samplers); adaptive (n_points and density; simple, product and "
+                "dependent-product domains, with/without set_volume): >= 2 calls, >= 1 loss vector, "
                 ">= 2 points (threshold and random variant, dyadic losses with ties/constant vectors, missing and wrong-length loss); "
                 "distinct = distinct histories")
     cases = cases if cases is not None else gen_cases(ctx)
